@@ -52,16 +52,32 @@ def units(ctx):
         us.append(("reach", PROPERTY, "Auer", None, 2, 2, mu, 120 if ctx.thorough else 60, 2 if ctx.thorough else 1))
     for mu in reach.truths(3, 2, True)[: (10 if ctx.thorough else 4)]:
         us.append(("reach", PROPERTY, "Auer", None, 2, 3, mu, 120 if ctx.thorough else 40, 1))
+    # real models, GP-generated histories (scripted observation offsets), contraction chosen so that runs end in a few dozen rounds
+    for alg in ("PaVeBaGP-IH", "PaVeBaGP-DE", "PartialGP-rect", "PartialGP-ell", "PaVeBa", "Auer"):
+        specs = [None] if alg == "Auer" else [("comp", 2), ("theta", 60), ("theta", 120)]
+        for spec in specs:
+            for seed in ((ctx.seed, ctx.seed + 1) if ctx.thorough else (ctx.seed,)):
+                us.append(("realreach", PROPERTY, alg, spec, 4, {"contraction": 4.0, "max_rounds": 60}, 3 if ctx.thorough else 2, seed))
     # heavy units first (better balance)
-    us.sort(key=lambda u: (0 if u[5] == 3 else 1, 0 if u[2].endswith(("DE", "ell")) else 1))
+    us.sort(key=lambda u: (0 if u[0] == "realreach" else 1, 0 if u[5] == 3 else 1, 0 if u[2].endswith(("DE", "ell")) else 1))
     return us
 
 
 def run_unit(unit):
+    if unit[0] == "realreach":
+        res = core.new_result()
+        reach.run_real_reach(unit, res)
+        return res
     return reach.run_unit(unit)
 
 
 def replay_case(case):
+    if case.get("mode") == "realreach":
+        res = core.new_result()
+        u = list(case["unit"])
+        u[3] = reach._fix_spec(u[3])
+        reach.run_real_reach(tuple(u), res, replay=case["path"])
+        return res["violations"]
     return reach.replay_case(case)
 
 
